@@ -296,6 +296,30 @@ def suite_unsafe_reuse(ctx, res, n):
                 res.add_cex("try_reuse hands on a placing transform with an entry outside Fixed 16.16 (a PaintTransform cannot hold it)",
                             {"call": "GlyphReuseCache.try_reuse", "oracle_affine": list(aff), "returned": [float(v) for v in r.transform]},
                             {"site": "reuse-unsafe-transform", "affine": list(aff)})
+        # direction: the donor -> shape question is the only one whose tolerance is measured in the SHAPE's space.  When picosvg finds no affine from
+        # the donor to the shape within tolerance, the shape must not be reused — not even if some affine exists the other way round (its inverse
+        # would carry an error of tolerance x scale).
+        for _ in range(max(20, n // 10)):
+            k = rng.choice([2, 10, 80, 0.5])
+            back = (1 / k, 0, 0, 1 / k, rng.randint(-50, 50), rng.randint(-50, 50))
+            donor_d, shape_d = "M0,0 L10,0 L0,10 Z", "M5,5 L%d,5 L5,%d Z" % (5 + int(10 * k), 5 + int(10 * k))
+
+            def directed(s1, s2, tolerance, _back=back, _donor=donor_d):
+                return None if s1.d == _donor else Affine2D(*_back)
+
+            glyph_reuse.affine_between = directed
+            cache = glyph_reuse.GlyphReuseCache(0.1)
+            cache.add_glyph("donor", donor_d)
+            try:
+                r = cache.try_reuse(shape_d)
+            except Exception as e:  # noqa
+                r = e
+            res.count(key=("reuse-direction", k, back[4:]), nontrivial=True)
+            res.stat("reuse-direction")
+            if r is not None and not isinstance(r, Exception):
+                res.add_cex("try_reuse reuses a donor although no affine from the donor to the shape exists within tolerance (it asked the question the "
+                            "other way round)", {"call": "GlyphReuseCache.try_reuse", "donor": donor_d, "shape": shape_d, "returned": [float(v) for v in r.transform]},
+                            {"site": "reuse-direction", "scale": k})
     finally:
         glyph_reuse.affine_between, glyph_reuse.normalize = orig_ab, orig_norm
 
